@@ -145,9 +145,9 @@ func boundAt(fn *ssa.Function, v ssa.Value, b *ssa.BasicBlock) (uint64, bool) {
 
 func init() {
 	register(&Rule{
-		Name:  "NARROW-GUARD",
-		Floor: 2,
-		Doc:   "the exported API takes document numbers and similar quantities as 64-bit integers while the postings bitmaps are 32 bit: a 64-bit parameter of an exported function or method that reaches - unchanged, through any chain of static calls - a conversion to a narrower integer type passes, on every path from the API entry to that conversion, a comparison of the very same value with a constant that fits the narrower type (in the function of the conversion or at a call site up the chain). Otherwise a target of 2^32 or more wraps around and the search answers for a small number instead of the end",
+		Name:   "NARROW-GUARD",
+		ZeroOK: true, // narrowing once behind the test and passing the narrow value on leaves fewer (or no) instances; the controls keep the matcher alive
+		Doc:    "the exported API takes document numbers and similar quantities as 64-bit integers while the postings bitmaps are 32 bit: a 64-bit parameter of an exported function or method that reaches - unchanged, through any chain of static calls - a conversion to a narrower integer type passes, on every path from the API entry to that conversion, a comparison of the very same value with a constant that fits the narrower type (in the function of the conversion or at a call site up the chain). Otherwise a target of 2^32 or more wraps around and the search answers for a small number instead of the end",
 		Run: func(c *Ctx, scope string, r *Report) {
 			inSrc := map[*ssa.Function]bool{}
 			for _, fn := range c.srcFns {
